@@ -5,6 +5,7 @@ CONSTANTS
   Cap = 1000
   Retention = 2147483647
   MinDelay = 0
+  MaxEpoch = 6
 INIT Init
 NEXT Next
 CHECK_DEADLOCK FALSE
